@@ -293,9 +293,12 @@ def step (sp : Spec) (w : World) : Event → World
       match findRow w t with
       | none => w
       | some r =>
-        -- _run_existing: a succeeded task refuses (MistralError, the transaction is rolled back); a task
-        -- already running its action ignores the request; else the task is (re)started
+        -- _run_existing: a succeeded task refuses (MistralError, the transaction is rolled back); a
+        -- completed task ignores the (non-rerun) request; a task already running its action ignores it;
+        -- else the task is started
         if r.state == .SUCCESS then w
+        -- … a request that is not a rerun is stale once the task has completed (repo fix 17f326b9)
+        else if isCompleted r.state then w
         else if r.state == .RUNNING && hasLiveAction w t then w
         else { w with tasks := updRow w.tasks t fun x => { x with state := .RUNNING, processed := false },
                       pending := w.pending ++ [.postRunAction t] }
